@@ -14,6 +14,10 @@
   * FORMERR and NOTIMP replies always say RA = 1, also in authoritative-only mode
     (`C09_ra_fixed_replies`, `C09_ra_all_replies_statement` and its refutation); RA reflects the
     configuration on standard queries (`C09_ra`, `C09_ra_all_replies_partial`);
+  * over TCP the message is the first `expected` octets delivered (`read_tcp_bytes` allocates
+    exactly the announced capacity): `C09_tcp_message_is_the_announced_prefix`,
+    `C09_tcp_tiny_prefix_silent`; the statements that handled the whole delivered buffer are kept
+    as `…_statement_before_tcpread_fix` with their refutations;
   * a reply that `Message::to_octets` refuses (e.g. 65 536 records from the resolver) is replaced
     by its SERVFAIL fallback (`serialise_response`, fix f78391d; before it nothing was sent):
     `C09_fallback_shape`, `C09_fallback_only_on_encode_error`, `C09_serialise_reply_total`, and
@@ -671,7 +675,8 @@ theorem C09_fallback_is_servfail_reply (authOnly : Bool) (resolver : ServerResol
   · exact srv_fallback_replyOf authOnly m _
 
 /-- When the reply does not serialise, the fallback's octets are what is framed; it has TC clear,
-    so up to 512 octets (65 535 for TCP) they go out unchanged. -/
+    so up to 512 octets (65 535 for TCP) they go out unchanged.  Over TCP the message handled is
+    the announced prefix `received.take n` of what the connection delivered. -/
 theorem C09_fallback_sent (authOnly : Bool) (resolver : ServerResolver) (buf : List UInt8)
     (m : Message) (e : EErr) (h : handleRawMessage authOnly resolver buf = some m)
     (he : encodeMessage m = .error e) :
@@ -679,8 +684,8 @@ theorem C09_fallback_sent (authOnly : Bool) (resolver : ServerResolver) (buf : L
       serialiseResponse m = some (servfailFallback m, bs) ∧
       serveUdp authOnly resolver buf = udpFrame bs ∧
       (bs.length ≤ 512 → serveUdp authOnly resolver buf = some bs) ∧
-      (bs.length ≤ 65535 → ∀ n, n ≤ buf.length →
-        serveTcp authOnly resolver n buf = some (u16Bytes bs.length ++ bs)) := by
+      (bs.length ≤ 65535 → ∀ n received, n ≤ received.length → received.take n = buf →
+        serveTcp authOnly resolver n received = some (u16Bytes bs.length ++ bs)) := by
   obtain ⟨⟨bs, hf⟩, _⟩ := C09_serialise_reply_total authOnly resolver buf m h
   obtain ⟨hs, hu, ht⟩ := (C09_fallback_shape m e he).2.1 bs hf
   have h12 := srv_encodeMessage_len hf
@@ -695,16 +700,16 @@ theorem C09_fallback_sent (authOnly : Bool) (resolver : ServerResolver) (buf : L
   · rw [srv_serveUdp_eq, h, hu]
   · intro hle
     rw [srv_serveUdp_eq, h, hu, srv_udpFrame_small h12 hle, srv_setTcBit_same _ _ htc]
-  · intro hle n hn
-    rw [srv_serveTcp_eq, srv_tcpRead_full hn]
-    simp only
-    rw [h, ht, srv_tcpFrame_small h12 hle, srv_setTcBit_same _ _ htc]
+  · intro hle n received hn htake
+    rw [srv_serveTcp_full _ _ hn, htake, h, ht, srv_tcpFrame_small h12 hle,
+      srv_setTcBit_same _ _ htc]
 
 /-! ## 11. TCP reads -/
 
 /-- A TCP read that ends before the announced length: FORMERR for the ID in the first two octets
-    received when there are two, nothing otherwise; a complete read is handled like a datagram
-    (and framed for TCP). -/
+    received when there are two, nothing otherwise; on a complete read the FIRST `expected` octets
+    (`read_tcp_bytes` allocates exactly the announced capacity; anything queued behind them is
+    not part of the message) are handled like a datagram and framed for TCP. -/
 theorem C09_tcp_short_read (authOnly : Bool) (resolver : ServerResolver) (expected : Nat)
     (received : List UInt8) :
     (received.length < expected →
@@ -715,7 +720,7 @@ theorem C09_tcp_short_read (authOnly : Bool) (resolver : ServerResolver) (expect
         else none) ∧
     (expected ≤ received.length →
       serveTcp authOnly resolver expected received =
-        srvSendTcp (handleRawMessage authOnly resolver received)) := by
+        srvSendTcp (handleRawMessage authOnly resolver (received.take expected))) := by
   constructor
   · intro h
     rw [srv_serveTcp_eq, srv_tcpRead_short h]
@@ -723,7 +728,7 @@ theorem C09_tcp_short_read (authOnly : Bool) (resolver : ServerResolver) (expect
     · simp only [dif_pos h2]; rfl
     · simp only [dif_neg h2]; rfl
   · intro h
-    rw [srv_serveTcp_eq, srv_tcpRead_full h]
+    exact srv_serveTcp_full _ _ h
 
 /-- the short-read FORMERR on the wire: `00 0C`, the ID, `80 81` and eight zero octets -/
 theorem C09_tcp_short_read_wire (authOnly : Bool) (resolver : ServerResolver) (expected : Nat)
@@ -735,12 +740,62 @@ theorem C09_tcp_short_read_wire (authOnly : Bool) (resolver : ServerResolver) (e
   rw [(C09_tcp_short_read authOnly resolver expected received).1 h, dif_pos h2]
   exact (C09_formerr_wire _).2.2
 
-/-- `srvSendTcp`/`srvSendUdp` are what `serve_tcp`/`serve_udp` do after the message is chosen. -/
+/-- `srvSendTcp`/`srvSendUdp` are what `serve_tcp`/`serve_udp` do after the message is chosen;
+    over TCP the message is the announced prefix `buf.take n` of the octets delivered. -/
 theorem C09_serve_is_send (authOnly : Bool) (resolver : ServerResolver) (buf : List UInt8) :
     serveUdp authOnly resolver buf = srvSendUdp (handleRawMessage authOnly resolver buf) ∧
     ∀ n, n ≤ buf.length →
-      serveTcp authOnly resolver n buf = srvSendTcp (handleRawMessage authOnly resolver buf) :=
+      serveTcp authOnly resolver n buf =
+        srvSendTcp (handleRawMessage authOnly resolver (buf.take n)) :=
   ⟨srv_serveUdp_eq _ _ _, fun n hn => (C09_tcp_short_read authOnly resolver n buf).2 hn⟩
+
+/-- **The TCP message is the announced prefix.**  Octets delivered beyond the announced length
+    never influence the reply. -/
+theorem C09_tcp_message_is_the_announced_prefix (authOnly : Bool) (resolver : ServerResolver)
+    (n : Nat) (buf : List UInt8) (hn : n ≤ buf.length) :
+    serveTcp authOnly resolver n buf = serveTcp authOnly resolver n (buf.take n) := by
+  have hl : n ≤ (buf.take n).length := by rw [List.length_take]; omega
+  rw [srv_serveTcp_full _ _ hn, srv_serveTcp_full _ _ hl, List.take_take, Nat.min_self]
+
+/-- … so two streams that agree on the announced prefix get the same reply. -/
+theorem C09_tcp_same_prefix_same_reply (authOnly : Bool) (resolver : ServerResolver) (n : Nat)
+    (buf1 buf2 : List UInt8) (h1 : n ≤ buf1.length) (h2 : n ≤ buf2.length)
+    (h : buf1.take n = buf2.take n) :
+    serveTcp authOnly resolver n buf1 = serveTcp authOnly resolver n buf2 := by
+  rw [srv_serveTcp_full _ _ h1, srv_serveTcp_full _ _ h2, h]
+
+/-- An announced length below two octets (with that much delivered): nothing is sent — there is
+    no ID to answer to. -/
+theorem C09_tcp_tiny_prefix_silent (authOnly : Bool) (resolver : ServerResolver) (n : Nat)
+    (buf : List UInt8) (hn : n ≤ buf.length) (h2 : n < 2) :
+    serveTcp authOnly resolver n buf = none := by
+  have hl : (buf.take n).length < 2 := by rw [List.length_take]; omega
+  rw [srv_serveTcp_full _ _ hn,
+    (C09_reply_iff authOnly resolver (buf.take n)).mpr (.inl hl)]
+  rfl
+
+/-- the statement of `C09_serve_is_send` as it stood before the `tcpRead` correction (the whole
+    delivered buffer handled, whatever the announced length) … -/
+def C09_serve_is_send_statement_before_tcpread_fix : Prop :=
+  ∀ (authOnly : Bool) (resolver : ServerResolver) (buf : List UInt8) (n : Nat), n ≤ buf.length →
+    serveTcp authOnly resolver n buf = srvSendTcp (handleRawMessage authOnly resolver buf)
+
+/-- … is false: announce 3 octets and deliver the 12-octet header `AB CD 01 00 …` (a query with
+    no question, answered SERVFAIL as a whole): the message is `AB CD 01`, which gets FORMERR. -/
+theorem C09_serve_is_send_before_tcpread_fix_false :
+    ¬ C09_serve_is_send_statement_before_tcpread_fix := by
+  intro hall
+  have h := hall false (fun _ _ => .error .timeout)
+    [0xAB, 0xCD, 1, 0, 0, 0, 0, 0, 0, 0, 0, 0] 3 (by decide)
+  have hd3 : decodeMessage [0xAB, 0xCD, 1] = .error (.headerTooShort 0xABCD) := by decide
+  have hd : decodeMessage [0xAB, 0xCD, 1, 0, 0, 0, 0, 0, 0, 0, 0, 0] =
+      .ok ⟨⟨0xABCD, false, 0, false, false, true, false, 0⟩, [], [], [], []⟩ := by decide
+  rw [srv_serveTcp_full _ _ (by decide)] at h
+  rw [show List.take 3 [(0xAB : UInt8), 0xCD, 1, 0, 0, 0, 0, 0, 0, 0, 0, 0] = [0xAB, 0xCD, 1] from rfl,
+    C09_formerr false _ _ _ hd3 (by decide), srv_handle_query hd rfl rfl,
+    srv_rabr_no_question _ _ _ (srv_triage_nil rfl)] at h
+  revert h
+  decide
 
 /-! ## 12. One reply, and it reads back as the reply -/
 
@@ -757,13 +812,14 @@ theorem C09_one_reply_function (authOnly : Bool) (r1 r2 : ServerResolver)
 
 /-- Every reply message of the server has TC clear, so framing a reply that fits changes nothing:
     up to 512 octets the datagram is the serialisation itself; up to 65 535 octets the TCP
-    message is the length prefix followed by the serialisation itself. -/
+    message is the length prefix followed by the serialisation itself (for every stream
+    `received` whose announced prefix `received.take n` is the buffer). -/
 theorem C09_frames_of_fitting_reply (authOnly : Bool) (resolver : ServerResolver)
     (buf : List UInt8) (m : Message) (bs : List UInt8)
     (h : handleRawMessage authOnly resolver buf = some m) (he : encodeMessage m = .ok bs) :
     (bs.length ≤ 512 → serveUdp authOnly resolver buf = some bs) ∧
-    (bs.length ≤ 65535 → ∀ n, n ≤ buf.length →
-      serveTcp authOnly resolver n buf = some (u16Bytes bs.length ++ bs)) := by
+    (bs.length ≤ 65535 → ∀ n received, n ≤ received.length → received.take n = buf →
+      serveTcp authOnly resolver n received = some (u16Bytes bs.length ++ bs)) := by
   have h12 := srv_encodeMessage_len he
   have htc : srvTcOf bs = some false := by
     rw [srv_encodeMessage_tc he]
@@ -781,8 +837,8 @@ theorem C09_frames_of_fitting_reply (authOnly : Bool) (resolver : ServerResolver
     rw [srv_serveUdp_eq, h]
     simp only [srvSendUdp, srv_serialise_ok he]
     rw [srv_udpFrame_small h12 hle, srv_setTcBit_same _ _ htc]
-  · intro hle n hn
-    rw [(C09_serve_is_send authOnly resolver buf).2 n hn, h]
+  · intro hle n received hn htake
+    rw [srv_serveTcp_full _ _ hn, htake, h]
     simp only [srvSendTcp, srv_serialise_ok he]
     rw [srv_tcpFrame_small h12 hle, srv_setTcBit_same _ _ htc]
 
@@ -838,24 +894,52 @@ theorem C09ex.rootQuery_decodes : decodeMessage C09ex.rootQueryBytes = .ok C09ex
 
 /-- **Every query is answered.**  For EVERY resolver (no hypothesis on what it returns), both
     settings of `authoritative_only` and every buffer of two or more octets that does not decode
-    to a message flagged as a response: a datagram is sent; over TCP a message is sent when the
-    buffer was read in full; and a TCP read cut short after two or more octets gets its
-    (FORMERR) message too.  (With the SERVFAIL fallback of `serialise_response`; before that fix
-    a resolver result with 65 536 records silenced the server.) -/
+    to a message flagged as a response: a datagram is sent; over TCP a message is sent whenever
+    that buffer is the announced prefix of what the connection delivered (`received.take n = buf`
+    — anything queued behind it is irrelevant); and a TCP read cut short after two or more
+    octets gets its (FORMERR) message too.  (With the SERVFAIL fallback of `serialise_response`;
+    before that fix a resolver result with 65 536 records silenced the server.) -/
 theorem C09_every_query_answered (authOnly : Bool) (resolver : ServerResolver) (buf : List UInt8)
     (h2 : 2 ≤ buf.length)
     (hq : ∀ m, decodeMessage buf = .ok m → m.header.isResponse = false) :
     (serveUdp authOnly resolver buf).isSome = true ∧
-    (∀ n, n ≤ buf.length → (serveTcp authOnly resolver n buf).isSome = true) ∧
+    (∀ n received, n ≤ received.length → received.take n = buf →
+      (serveTcp authOnly resolver n received).isSome = true) ∧
     (∀ n, buf.length < n → (serveTcp authOnly resolver n buf).isSome = true) := by
   obtain ⟨reply, hreply, _⟩ := C09_one_reply authOnly resolver buf h2 hq
   obtain ⟨hu, ht⟩ := C09_send_some authOnly resolver buf reply hreply
   refine ⟨?_, ?_, ?_⟩
   · rw [srv_serveUdp_eq, hreply]; exact hu
-  · intro n hn
-    rw [(C09_serve_is_send authOnly resolver buf).2 n hn, hreply]; exact ht
+  · intro n received hn htake
+    rw [srv_serveTcp_full _ _ hn, htake, hreply]; exact ht
   · intro n hn
     rw [C09_tcp_short_read_wire authOnly resolver n buf hn h2]; rfl
+
+/-- The TCP clause said from the side of the connection: for every announced length `n` that was
+    delivered in full, if the announced prefix `buf.take n` has two or more octets and does not
+    decode to a response, a message is sent (`C09_tcp_tiny_prefix_silent`: for `n < 2` nothing
+    is). -/
+theorem C09_every_query_answered_tcp (authOnly : Bool) (resolver : ServerResolver)
+    (buf : List UInt8) (n : Nat) (hn : n ≤ buf.length) (h2 : 2 ≤ (buf.take n).length)
+    (hq : ∀ m, decodeMessage (buf.take n) = .ok m → m.header.isResponse = false) :
+    (serveTcp authOnly resolver n buf).isSome = true :=
+  (C09_every_query_answered authOnly resolver (buf.take n) h2 hq).2.1 n buf hn rfl
+
+/-- the TCP clause of `C09_every_query_answered` as it stood before the `tcpRead` correction
+    (hypotheses on the whole delivered buffer, any announced length up to its length) … -/
+def C09_every_query_answered_tcp_statement_before_tcpread_fix : Prop :=
+  ∀ (authOnly : Bool) (resolver : ServerResolver) (buf : List UInt8), 2 ≤ buf.length →
+    (∀ m, decodeMessage buf = .ok m → m.header.isResponse = false) →
+    ∀ n, n ≤ buf.length → (serveTcp authOnly resolver n buf).isSome = true
+
+/-- … is false: announce one octet in front of the root query — nothing is sent. -/
+theorem C09_every_query_answered_tcp_before_tcpread_fix_false :
+    ¬ C09_every_query_answered_tcp_statement_before_tcpread_fix := by
+  intro hall
+  have h := hall false (fun _ _ => .error .timeout) C09ex.rootQueryBytes (by decide)
+    (fun m hm => by rw [C09ex.rootQuery_decodes] at hm; cases hm; rfl) 1 (by decide)
+  rw [C09_tcp_tiny_prefix_silent false _ 1 _ (by decide) (by decide)] at h
+  cases h
 
 /-- the short-read clause needs no hypothesis on the content at all -/
 theorem C09_tcp_short_read_answered (authOnly : Bool) (resolver : ServerResolver) (expected : Nat)
@@ -976,7 +1060,7 @@ theorem C09ex.too_many_records_servfail (rrs : List RR) (hlen : 65536 ≤ rrs.le
     rw [hfb]; decide
   obtain ⟨bs, hf', _, _, hu, ht⟩ := C09_fallback_sent false _ _ M _ hq he
   rw [hf] at hf'; cases hf'
-  exact ⟨⟨_, he⟩, hu (by decide), ht (by decide) 17 (by decide)⟩
+  exact ⟨⟨_, he⟩, hu (by decide), ht (by decide) 17 _ (by decide) rfl⟩
 
 /-- the concrete instance: exactly 65 536 copies of one A record -/
 example : serveUdp false (fun _ _ => .ok (.nonAuthoritative
@@ -1143,8 +1227,27 @@ example : serveTcp false C09ex.failResolver 17 C09ex.rootQueryBytes =
     rw [srv_handle_query C09ex.rootQuery_decodes rfl rfl,
       srv_rabr_question false _ _ _ (srv_triage_one_known rfl (by decide))]
     rfl
-  rw [(C09_tcp_short_read false C09ex.failResolver 17 _).2 (by decide), hq]
+  rw [(C09_tcp_short_read false C09ex.failResolver 17 _).2 (by decide),
+    show C09ex.rootQueryBytes.take 17 = C09ex.rootQueryBytes from rfl, hq]
   decide
+
+/-- the announced prefix is the message: 5 octets announced in front of the complete 17-octet
+    root query (which as a whole decodes and is answered, see above) — `12 34 01 00 00` is
+    undecodable, FORMERR; and the reply is that of the 5 octets alone -/
+example (a : Bool) (r : ServerResolver) : serveTcp a r 5 C09ex.rootQueryBytes =
+    some [0, 12, 0x12, 0x34, 0x80, 0x81, 0, 0, 0, 0, 0, 0, 0, 0] := by
+  have hd : decodeMessage [0x12, 0x34, 1, 0, 0] = .error (.headerTooShort 0x1234) := by decide
+  rw [(C09_tcp_short_read a r 5 _).2 (by decide),
+    show C09ex.rootQueryBytes.take 5 = [0x12, 0x34, 1, 0, 0] from rfl,
+    C09_formerr a r _ _ hd (by decide)]
+  exact (C09_formerr_wire _).2.2
+example (a : Bool) (r : ServerResolver) :
+    serveTcp a r 5 C09ex.rootQueryBytes = serveTcp a r 5 [0x12, 0x34, 1, 0, 0] :=
+  C09_tcp_message_is_the_announced_prefix a r 5 _ (by decide)
+example : ∃ m, decodeMessage C09ex.rootQueryBytes = .ok m := ⟨_, C09ex.rootQuery_decodes⟩
+/-- fewer than two octets announced: silence -/
+example (a : Bool) (r : ServerResolver) : serveTcp a r 1 C09ex.rootQueryBytes = none :=
+  C09_tcp_tiny_prefix_silent a r 1 _ (by decide) (by decide)
 
 /-- framing hypotheses are satisfiable on both sides of each limit -/
 example : ∃ out, udpFrame (List.replicate 600 0) = some out :=
